@@ -2096,6 +2096,7 @@ class ContractionTree:
                         "select": rng.choice(subtree_select),
                         "weight_pwr": rng.choice(subtree_weight_pwr),
                         "weight_what": rng.choice(subtree_weight_what),
+                        "seed": rng.randrange(2**32),
                     }
                     for _ in range(num_trees)
                 ]
